@@ -18,6 +18,9 @@ def _limit_mem():
 
 
 def build_harness(ctx, release=False):
+    global HARNESS
+    if "BV_VEC_HARNESS" not in os.environ:
+        HARNESS = common.harness_dir("harness_vec")   # shadow copy when BV_REPO points at a scratch worktree
     with common.Lock("cargo_vec"):
         t = time.time()
         cmd = "cargo build --offline" + (" --release" if release else "")
